@@ -1,0 +1,76 @@
+//go:build verif
+
+package face
+
+import (
+	defn "github.com/named-data/ndnd/fw/defn"
+)
+
+var _ defn.Scope
+
+// Contracts for the gcv verifier (/verif); compiled only with build tag `verif`.
+
+// ---------------------------------------------------------------------------------------
+// C09, face side: which faces are Local. All /localhost scope tests of the forwarding pipelines ask Face.Scope(), which the
+// link service takes from its transport (transportBase.scope). The field is written by the transport constructors only.
+//
+// From the property statement: a face is Local only if its peer is on this host, i.e. the peer address is a loopback IP
+// address, or the face is a Unix-domain socket, or it is the forwarder's internal transport. Everything else (remote IP
+// address, multicast group, null face) is NonLocal.
+//
+// "The address text h denotes a loopback IP address" is defn.SpecHostIsLoopback(h), the scope the property demands of an IP
+// endpoint is defn.SpecScopeOfHost(h) (fw/defn/zz_verif_scope.go; net.ParseIP and net.IP.IsLoopback are pure uninterpreted
+// functions: assumption).
+// ---------------------------------------------------------------------------------------
+
+// Outgoing TCP face: Local iff the remote address of the URI is a loopback address.
+//
+//@ func MakeUnicastTCPTransport
+//@   requires remoteURI != nil
+//@   ensures [scope-iff-peer-on-this-host] result0 != nil ==> result0.scope == defn.SpecScopeOfHost(remoteURI.Path()) && result0.remoteURI == remoteURI
+
+// Accepted TCP face: Local iff the remote address recorded for the connection (the face's remote URI) is a loopback address.
+//
+//@ func AcceptUnicastTCPTransport
+//@   requires remoteConn != nil
+//@   ensures [scope-iff-peer-on-this-host] result0 != nil ==> result0.remoteURI != nil && result0.scope == defn.SpecScopeOfHost(result0.remoteURI.Path())
+
+// Unicast UDP face (created by management, or by the UDP listener for a new remote endpoint).
+//
+//@ func MakeUnicastUDPTransport
+//@   requires remoteURI != nil
+//@   ensures [scope-iff-peer-on-this-host] result0 != nil ==> result0.scope == defn.SpecScopeOfHost(remoteURI.Path()) && result0.remoteURI == remoteURI
+
+// Multicast UDP face: the peers are whoever listens on the group: never Local.
+//
+//@ func MakeMulticastUDPTransport
+//@   requires localURI != nil
+//@   modifies localURI.scheme, localURI.path, localURI.port
+//@   ensures [never-local] result0 != nil ==> result0.scope == defn.NonLocal
+
+// Unix stream face: the peer is a process on this host.
+//
+//@ func MakeUnixStreamTransport
+//@   requires remoteURI != nil && localURI != nil
+//@   ensures [unix-is-local] result0 != nil ==> result0.scope == defn.Local
+
+// WebSocket face: Local iff the remote address of the connection (host part of the remote URI's path, zone stripped) is a
+// loopback address.
+//
+//@ func NewWebSocketTransport
+//@   requires c != nil
+//@   ensures [non-nil] t != nil && t.remoteURI != nil
+//@   ensures [scope-iff-peer-on-this-host] t.scope == defn.SpecScopeOfHost(defn.SpecHostOf(t.remoteURI.Path()))
+
+// Internal transport (management and other in-process modules): Local. Null transport: NonLocal.
+//
+//@ func MakeInternalTransport
+//@   ensures [internal-is-local] result != nil && result.scope == defn.Local
+
+//@ func MakeNullTransport
+//@   ensures [null-is-nonlocal] result != nil && result.scope == defn.NonLocal
+
+// The scope a face reports is the scope its transport was built with.
+//
+//@ func (*transportBase).Scope
+//@   ensures result == t.scope
